@@ -443,6 +443,14 @@ fn vec_long() {
     go_vec(3, 3, S_LONG, E_ALL, wit_some);
 }
 
+// @verif family=SEQ thorough=C08,C03,C10,C06 timeout=3600 mem=24
+// @bounds kind=[Tracked;3]; prefix<=3 next(); any pull (single / chunk n<=5 / buffered x2); any pull or len query or skip_to_end; single/chunk/len; end in {drop, into_seq_iter all/partly}; drop ledger
+#[kani::proof]
+#[kani::unwind(7)]
+fn array_long() {
+    go_array3(3, S_LONG, E_ALL, wit_some);
+}
+
 // ------------------------------------------------------------------------------------------------
 // C09 on the wrapper, single-threaded: with the memory-backed hook every atomic access is counted; an
 // operation that performs more than 12 loads in a row without any write is spinning on a memory that
